@@ -114,13 +114,6 @@ theorem C17_accept_appends (cs : List Call) (r : Req) (c' : Coll)
     (h : addService (after cs) r = (c', none)) : ∃ news, c'.reg.all = (after cs).reg.all ++ news :=
   (addService_spec' _ r (reachable_inv cs) c' none h).2.1 rfl
 
-/-- a constructor runs at Build only if one of its descriptors is in the list Build iterates -/
-theorem buildRuns_sound (l : List Desc) (n : Nat) (h : n ∈ buildRuns l) : ∃ d ∈ l, d.ctor = n := by
-  unfold buildRuns at h
-  simp only [List.mem_map, List.mem_filter] at h
-  obtain ⟨d, ⟨hd, _⟩, rfl⟩ := h
-  exact ⟨d, hd, rfl⟩
-
 /-- The FULL clause "the removed registration has no effect on later builds": nothing that is still
 registered stores an output under an identity other than the registration currently holding it.
 FALSE for the code as it is (finding D25): see `C17_counterexample_removed_sibling`. -/
@@ -248,5 +241,15 @@ example :
                                    fun c => (remove c 4, none)]
     ((h3.provFind p (4, .nil)).map (·.ctor) = some 1 ∧ h3.provGroup p (5, 1) = [] ∧
       contains (h3.load r3) 4 = false ∧ hasGroup (h3.load r3) 5 1 = true) := by decide
+
+/-- `C17_snapshot` is a statement about aliasing, not a triviality about values: a Build that hands
+the provider the collection's own `groups` map (what `/repo` did before f284974, and what "clone only
+when non-empty" would do again) makes a later grouped registration visible to the old provider -/
+def buildSharing (h : Heap) (r : CollRef) : Heap × Prov := (h, { sref := r.sref, gref := r.gref, built := r.all })
+example :
+    let (h0, r0) := ({} : Heap).newCollection
+    let (h1, p) := buildSharing h0 r0
+    let (h2, _) := h1.runAll r0 [fun c => addService c { ctor := 2, primary := 5, rets := [5], group := 1 }]
+    (h1.provGroup p (5, 1)).length = 0 ∧ (h2.provGroup p (5, 1)).length = 1 := by decide
 
 end Godi.Props.C17
